@@ -30,13 +30,20 @@ PROP = "C07"
 #  same-element-siblings: one call borrows two sub-places of the same struct/tuple-typed array element and
 #  one of them is not itself below a further subscript (`g(ss[0].xs, ss[0].ys)`): accepted, then panics
 #  "Array element is already borrowed" (documented upstream in tests/integration/test_array.py::test_struct_array)
-EXCLUDE = set() if os.environ.get("C07_EXCLUDE") == "none" else {"same-element-siblings"}
+#  nested-call-indices: two subscripts of ONE argument place both have a call as index (`f(g[a(c)][b(c)])`): the
+#  indices are evaluated innermost-last in Python but outermost-last by Guppy (known finding of C05,
+#  nested_subscript_order); one call index per place is generated
+EXCLUDE = set() if os.environ.get("C07_EXCLUDE") == "none" else {"same-element-siblings", "nested-call-indices"}
 SIBLING_BUCKET = "panic.two_args_below_one_array_element"
+NESTED_IDX_BUCKET = "value.mismatch.two_call_indices_in_one_place"
+CALL_INDEX_PCT = 50        # an argument place with subscripts gets a call as index
+COMPREHENSION_PCT = 35     # a call statement is the element expression of an array comprehension
 CASES_PER_PROGRAM = 12
 
 HEADER = """from guppylang import guppy
 from guppylang.std.builtins import result, array, owned
 from guppylang.std.quantum import qubit, measure, x, cx, measure_array
+from guppylang.std.mem import mem_swap
 """
 
 # one step from a place of the key type: (step template, type of the sub-place)
@@ -48,17 +55,23 @@ CHILDREN = {
     "P": [(("f", "t"), "TU")],
     "W": [(("f", "xss"), "AA")],
     "AS": [(("iM",), "S")],
+    "G": [(("iM",), "AA")],
+    "AW": [(("iM",), "W")],
     "Q2": [(("f", "a"), "L"), (("f", "b"), "L")],
     "A": [(("iN",), "L")],
 }
-INT_TYPES = ["A", "AA", "S", "U", "TU", "P", "W", "AS"]
+INT_TYPES = ["A", "AA", "S", "U", "TU", "P", "W", "AS", "G", "AW"]
+# mem_swap operands (a Python tuple cannot take new contents in place: no TU); struct types with a classical
+# field next to the non-copyable ones are listed twice
+SWAP_TYPES = ["S", "S", "P", "P", "U", "AS", "A", "AA", "W", "G", "AW", "Q2", "L"]
+CLASSICAL_FIELD = {"S", "P", "U", "AS"}  # types holding a classical (copyable) field below a non-copyable value
 QUBIT_TYPES = INT_TYPES + ["L", "Q2"]
 
 
 def type_src(t, leaf, N, M):
     a = f"array[{leaf}, {N}]"
     return {"L": leaf, "A": a, "AA": f"array[{a}, {M}]", "TU": f"tuple[{a}, {a}]",
-            "AS": f"array[S, {M}]"}.get(t, t)
+            "AS": f"array[S, {M}]", "G": f"array[array[{a}, {M}], {M}]", "AW": f"array[W, {M}]"}.get(t, t)
 
 
 def decls(leaf, N, M):
@@ -66,7 +79,10 @@ def decls(leaf, N, M):
     s = (f"@guppy.struct\nclass S:\n    xs: {a}\n    k: int\n    ys: {a}\n\n"
          f"@guppy.struct\nclass U:\n    s: S\n    zs: {a}\n\n"
          f"@guppy.struct\nclass P:\n    t: tuple[{a}, {a}]\n    k: int\n\n"
-         f"@guppy.struct\nclass W:\n    xss: array[{a}, {M}]\n")
+         f"@guppy.struct\nclass W:\n    xss: array[{a}, {M}]\n\n"
+         # reads the classical field of a struct that is an array element (`ss[0].k` is rejected:
+         # 'Subscript consumed'); borrows the element
+         "@guppy\ndef k_of(s: S) -> int:\n    return s.k\n")
     if leaf == "qubit":
         s += "\n@guppy.struct\nclass Q2:\n    a: qubit\n    b: qubit\n"
     return s
@@ -127,7 +143,7 @@ def shape_of(steps):
     if not steps:
         return "var"
     kinds = ["field" if s[0] == "f" else "tuple" if s[0] == "t" else
-             ("subscript" if str(s[1]).isdigit() else "subscript-rt") for s in steps]
+             ("subscript" if str(s[1]).isdigit() else "subscript-call" if "(" in str(s[1]) else "subscript-rt") for s in steps]
     return kinds[0] if len(kinds) == 1 else "nested:" + "+".join(kinds)
 
 
@@ -145,7 +161,9 @@ class Gen:
         self.counter = 0
         self.funcs = []
         self.excluded = 0
+        self.excluded_idx = 0
         self.sibling_used = False
+        self.nested_idx_used = False
 
     def pick(self, xs):
         return xs[self.r.randrange(len(xs))]
@@ -168,7 +186,7 @@ class Gen:
         return self.pick([var, var, f"{n - 1} - {var}"])
 
     def concretise(self, steps, ctx, literal=False):
-        return [("i", self.index(s[0], ctx, literal)) if s[0] in ("iM", "iN") else s for s in steps]
+        return [("i", self.index(s[0], ctx, literal), s[0]) if s[0] in ("iM", "iN") else s for s in steps]
 
     def place(self, roots, target, ctx, taken=(), literal=False, min_depth=0):
         """a place of type `target` below one of roots=[(name, type)], not overlapping `taken`."""
@@ -179,7 +197,7 @@ class Gen:
                     cands.append((name, p))
         self.r.shuffle(cands)
         # prefer deeper paths a little
-        cands.sort(key=lambda c: -len(c[1]) if self.chance(40) else 0)
+        cands.sort(key=lambda c: -len(c[1]) if self.chance(50) else 0)
         for name, p in cands[:12]:
             for attempt in range(3):
                 steps = self.concretise(p, ctx, literal or attempt == 2)
@@ -211,7 +229,7 @@ class Gen:
             return str(c)
         return f"{render(*pl)}[{self.index('iN', ctx)}] + {c}"
 
-    def stmt_write(self, roots, ctx):
+    def stmt_write(self, roots, ctx, max_level=0):
         if self.leaf == "qubit":
             a = self.place(roots, "L", ctx)
             if a is None:
@@ -230,7 +248,11 @@ class Gen:
                 if a1 is not None and b1 is not None:
                     return {"lines": [f"cx({render(*a1)}, {render(*b1)})"], "kind": "cx",
                             "depth": max(len(a1[1]), len(b1[1])), "shapes": [shape_of(a1[1]), shape_of(b1[1])]}
-            return {"lines": [f"x({render(*a)})"], "kind": "x", "depth": len(a[1]), "shapes": [shape_of(a[1])]}
+            names = []
+            if max_level > 0:
+                a, names = self.call_index(a, roots, ctx, max_level, [], False)
+            return {"lines": [f"x({render(*a)})"], "kind": "x", "depth": len(a[1]), "shapes": [shape_of(a[1])],
+                    "callees": names}
         a = self.place(roots, "A", ctx)
         if a is None:
             return None
@@ -277,49 +299,128 @@ class Gen:
         return {"lines": [f"{n} = 0", f"while {n} < 2:"] + ["    " + ln for ln in inner["lines"]] + [f"    {n} += 1"],
                 "kind": "while", "depth": inner["depth"], "shapes": inner["shapes"]}
 
-    def stmt_call(self, roots, ctx, max_level):
-        cands = [f for f in self.funcs if f["level"] < max_level]
+    def int_args(self, ctx, comp=False):
+        if ctx == "case":
+            ints = [str(self.r.randrange(self.M)), str(self.r.randrange(self.N)), str(self.fresh())]
+        else:
+            ints = [self.pick(["i", str(self.r.randrange(self.M)), f"{self.M - 1} - i"]),
+                    self.pick(["j", str(self.r.randrange(self.N)), f"{self.N - 1} - j"]),
+                    self.pick(["v", f"v + {self.fresh()}", str(self.fresh())])]
+        if comp and self.chance(50):
+            # the comprehension variable reaches the callee
+            ints[2] = self.pick(["q_", f"q_ + {self.fresh()}", f"{ints[2]} + q_"])
+        return ints
+
+    def call_index(self, pl, roots, ctx, max_level, taken, comp):
+        """maybe turn subscript indices of the argument place `pl` into calls `f(<borrowed places>, ...) % n` of a
+        pool function with an int result: evaluating the index updates the places lent to f (once, when the
+        argument is evaluated).  -> (place, [callee names])"""
+        subs = [k for k, st in enumerate(pl[1]) if st[0] == "i"]
+        if not subs or not self.chance(CALL_INDEX_PCT):
+            return pl, []
+        chosen = [k for k in subs if self.chance(60)] or [self.pick(subs)]
+        if len(chosen) > 1:
+            if "nested-call-indices" in EXCLUDE:
+                self.excluded_idx += 1
+                chosen = [self.pick(chosen)]
+            else:
+                self.nested_idx_used = True
+        steps = list(pl[1])
+        held = list(taken) + [pl]
+        names = []
+        for k in chosen:
+            inner = self.call_expr(roots, ctx, max_level, held, need_ret=True, call_idx=False, comp=comp)
+            if inner is None:
+                continue
+            n = self.M if steps[k][2] == "iM" else self.N
+            steps[k] = ("i", f"{inner['call']} % {n}", steps[k][2])
+            held += inner["places"]
+            names += inner["callees"]
+        new = (pl[0], steps)
+        if not names or any(may_overlap(new, t) or sibling_conflict(new, t) for t in held if t is not pl):
+            return pl, []
+        return new, names
+
+    def call_expr(self, roots, ctx, max_level, taken0=(), need_ret=False, call_idx=True, comp=False):
+        """a call of a pool function below max_level lending places below `roots` that overlap neither each
+        other nor `taken0` -> dict(call, f, places, callees) | None"""
+        cands = [f for f in self.funcs if f["level"] < max_level and (f["ret"] or not need_ret)]
         self.r.shuffle(cands)
         # prefer the highest level available (nested borrows), then anything
         cands.sort(key=lambda f: -f["level"] if self.chance(60) else 0)
         for f in cands[:6]:
-            taken = []
+            taken = list(taken0)
+            places, callees = [], [f["name"]]
             ok = True
             for _, t in f["params"]:
                 pl = self.place(roots, t, ctx, taken=taken, literal=bool(taken))
                 if pl is None:
                     ok = False
                     break
+                if call_idx:
+                    pl, names = self.call_index(pl, roots, ctx, max_level, taken, comp)
+                    callees += names
                 taken.append(pl)
+                places.append(pl)
             if not ok:
                 continue
+            call = f"{f['name']}({', '.join([render(*p) for p in places] + self.int_args(ctx, comp))})"
+            return {"call": call, "f": f, "places": places, "callees": callees}
+        return None
+
+    def stmt_call(self, roots, ctx, max_level):
+        # a comprehension evaluates its element expression - a call lending places of the enclosing scope - once
+        # per iteration; the places keep the updates of every iteration
+        comp = self.chance(COMPREHENSION_PCT)
+        c = (self.call_expr(roots, ctx, max_level, need_ret=True, comp=True) if comp else None)
+        if c is None:
+            comp = False
+            c = self.call_expr(roots, ctx, max_level)
+        if c is None:
+            return None
+        f, taken, call = c["f"], c["places"], c["call"]
+        if comp:
+            call = f"array({call} for q_ in range({self.r.randrange(1, 4)}))"
+        sib = len(taken) == 2 and sibling_conflict(taken[0], taken[1])
+        lines = [call]
+        if f["ret"]:
             if ctx == "case":
-                ints = [str(self.r.randrange(self.M)), str(self.r.randrange(self.N)), str(self.fresh())]
+                tag = f"r{self.fresh()}"
+                lines = [f"{tag} = {call}", f'result("@K@{tag}", {tag})']
             else:
-                ints = [self.pick(["i", str(self.r.randrange(self.M)), f"{self.M - 1} - i"]),
-                        self.pick(["j", str(self.r.randrange(self.N)), f"{self.N - 1} - j"]),
-                        self.pick(["v", f"v + {self.fresh()}", str(self.fresh())])]
-            call = f"{f['name']}({', '.join([render(*p) for p in taken] + ints)})"
-            sib = len(taken) == 2 and sibling_conflict(taken[0], taken[1])
-            lines = [call]
-            if f["ret"]:
-                if ctx == "case":
-                    tag = f"r{self.fresh()}"
-                    lines = [f"{tag} = {call}", f'result("@K@{tag}", {tag})']
-                else:
-                    lines = [f"w{self.counter} = {call}"]
-            return {"lines": lines, "kind": "call", "depth": max(len(p[1]) for p in taken), "callee": f["name"],
-                    "shapes": [shape_of(p[1]) for p in taken], "nargs": len(taken), "sibling": sib}
+                lines = [f"w{self.counter} = {call}"]
+        return {"lines": lines, "kind": "call", "depth": max(len(p[1]) for p in taken), "callee": f["name"],
+                "callees": c["callees"][1:], "comprehension": comp,
+                "shapes": [shape_of(p[1]) for p in taken], "nargs": len(taken), "sibling": sib}
+
+    def stmt_memswap(self, roots, ctx):
+        """`mem_swap(a, b)` on two non-overlapping places of one type: both keep their identity and exchange their
+        values, classical struct fields included."""
+        cands = [t for t in SWAP_TYPES if t in self.types]
+        self.r.shuffle(cands)
+        if self.chance(60):
+            cands.sort(key=lambda t: t not in CLASSICAL_FIELD)
+        for t in cands[:6]:
+            a = self.place(roots, t, ctx)
+            if a is None:
+                continue
+            b = self.place(roots, t, ctx, taken=[a], literal=True)
+            if b is None:
+                continue
+            return {"lines": [f"mem_swap({render(*a)}, {render(*b)})"], "kind": "memswap", "swapped": t,
+                    "depth": max(len(a[1]), len(b[1])), "shapes": [shape_of(a[1]), shape_of(b[1])]}
         return None
 
     def stmt(self, roots, ctx, level, nest=0):
         k = self.r.randrange(100)
         s = None
-        if level > 0 and k < (55 if ctx != "case" else 100):
+        if level > 0 and k < (50 if ctx != "case" else 100):
             s = self.stmt_call(roots, ctx, level)
-        elif k < 75:
-            s = self.stmt_write(roots, ctx)
-        elif k < 87:
+        elif k < 68:
+            s = self.stmt_write(roots, ctx, level)
+        elif k < 78:
+            s = self.stmt_memswap(roots, ctx)
+        elif k < 88:
             s = self.stmt_loop(roots, ctx)
         elif nest == 0 and ctx != "case":
             a = self.stmt(roots, ctx, level, 1)
@@ -341,7 +442,9 @@ class Gen:
             pool = [t for t in pool if any(all_paths(t, lt, self.leaf) for lt in lower)] or pool
         np_ = 1 if self.chance(55) else 2
         params = [(f"p{n}", self.pick(pool)) for n in range(np_)]
-        ret = self.chance(30)
+        if np_ == 2 and self.chance(50):
+            params[1] = ("p1", params[0][1])  # two values of one type (can be exchanged as a whole)
+        ret = self.chance(40)
         body = [self.stmt(params, "fn", level) for _ in range(self.r.randrange(2, 5))]
         if level > 0 and not any(s.get("callee") or s.get("callees") for s in body):
             c = self.stmt_call(params, "fn", level)
@@ -357,6 +460,11 @@ class Gen:
         f = {"name": name, "level": level, "params": params, "ret": ret, "body": body}
         if ret:
             f["retexpr"] = self.pick([f"v + {self.fresh()}", f"i * 100 + j + {self.fresh()}"])
+            if self.leaf == "int" and self.chance(40):
+                # the result depends on the state the borrowed parameters have at the end
+                pl = self.place(params, "A", "fn")
+                if pl is not None:
+                    f["retexpr"] = f"{render(*pl)}[{self.index('iN', 'fn')}] + {self.fresh()}"
         self.funcs.append(f)
         return f
 
@@ -372,25 +480,29 @@ class Gen:
         if t == "AA":
             return "array(" + ", ".join(self.init("A") for _ in range(M)) + ")"
         if t == "S":
-            return f"S({self.init('A')}, {self.r.randrange(N)}, {self.init('A')})"
+            return f"S({self.init('A')}, {self.fresh()}, {self.init('A')})"
         if t == "U":
             return f"U({self.init('S')}, {self.init('A')})"
         if t == "TU":
             return f"({self.init('A')}, {self.init('A')})"
         if t == "P":
-            return f"P({self.init('TU')}, {self.r.randrange(N)})"
+            return f"P({self.init('TU')}, {self.fresh()})"
         if t == "W":
             return f"W({self.init('AA')})"
         if t == "AS":
             return "array(" + ", ".join(self.init("S") for _ in range(M)) + ")"
         if t == "Q2":
             return "Q2(qubit(), qubit())"
+        if t == "G":
+            return "array(" + ", ".join(self.init("AA") for _ in range(M)) + ")"
+        if t == "AW":
+            return "array(" + ", ".join(self.init("W") for _ in range(M)) + ")"
         raise ValueError(t)
 
     def n_leaves(self, t):
         N, M = self.N, self.M
         return {"L": 1, "A": N, "AA": N * M, "S": 2 * N, "U": 3 * N, "TU": 2 * N, "P": 2 * N, "W": N * M,
-                "AS": 2 * N * M, "Q2": 2}[t]
+                "AS": 2 * N * M, "Q2": 2, "G": N * M * M, "AW": N * M * M}[t]
 
     def report(self, var, t, k):
         """lines that report (int) / measure and report (qubit) every leaf of local `var`."""
@@ -404,17 +516,27 @@ class Gen:
             return [f'result("@K@{var}", measure({var}))']
         if t == "A":
             return [rep(var, var)]
+        def cls(tag, place):  # classical field
+            return f'result("@K@{tag}", {place})'
+
         if t == "S":
-            return [rep(f"{var}.xs", f"{var}.xs"), rep(f"{var}.ys", f"{var}.ys")]
+            return [rep(f"{var}.xs", f"{var}.xs"), cls(f"{var}.k", f"{var}.k"), rep(f"{var}.ys", f"{var}.ys")]
         if t == "U":
-            return [rep(f"{var}.s.xs", f"{var}.s.xs"), rep(f"{var}.s.ys", f"{var}.s.ys"), rep(f"{var}.zs", f"{var}.zs")]
+            return [rep(f"{var}.s.xs", f"{var}.s.xs"), cls(f"{var}.s.k", f"{var}.s.k"), rep(f"{var}.s.ys", f"{var}.s.ys"),
+                    rep(f"{var}.zs", f"{var}.zs")]
+        if t in ("G", "AW"):
+            if q:
+                return [f"for {var}_p in {var}:", f"    for {var}_row in {var}_p{'.xss' if t == 'AW' else ''}:",
+                        "        " + rep(f"{var}.row", f"{var}_row")]
+            return [rep(f"{var}[{m}][{n}]", f"{var}[{m}]{'.xss' if t == 'AW' else ''}[{n}]") for m in range(M) for n in range(M)]
         if t == "Q2":
             return [f'result("@K@{var}.a", measure({var}.a))', f'result("@K@{var}.b", measure({var}.b))']
         if t in ("TU", "P"):
             src = var if t == "TU" else f"{var}.t"
+            kk = [cls(f"{var}.k", f"{var}.k")] if t == "P" else []
             if q:
-                return [f"{var}_0, {var}_1 = {src}", rep(f"{var}[0]", f"{var}_0"), rep(f"{var}[1]", f"{var}_1")]
-            return [rep(f"{var}[0]", f"{src}[0]"), rep(f"{var}[1]", f"{src}[1]")]
+                return kk + [f"{var}_0, {var}_1 = {src}", rep(f"{var}[0]", f"{var}_0"), rep(f"{var}[1]", f"{var}_1")]
+            return kk + [rep(f"{var}[0]", f"{src}[0]"), rep(f"{var}[1]", f"{src}[1]")]
         if t in ("AA", "W"):
             src = var if t == "AA" else f"{var}.xss"
             if q:
@@ -422,8 +544,10 @@ class Gen:
             return [rep(f"{var}[{m}]", f"{src}[{m}]") for m in range(M)]
         if t == "AS":
             if q:
-                return [f"for {var}_s in {var}:", "    " + rep(f"{var}.xs", f"{var}_s.xs"), "    " + rep(f"{var}.ys", f"{var}_s.ys")]
-            return [x for m in range(M) for x in (rep(f"{var}[{m}].xs", f"{var}[{m}].xs"), rep(f"{var}[{m}].ys", f"{var}[{m}].ys"))]
+                return [f"for {var}_s in {var}:", "    " + cls(f"{var}.k", f"{var}_s.k"), "    " + rep(f"{var}.xs", f"{var}_s.xs"),
+                        "    " + rep(f"{var}.ys", f"{var}_s.ys")]
+            return [x for m in range(M) for x in (rep(f"{var}[{m}].xs", f"{var}[{m}].xs"), cls(f"{var}[{m}].k", f"k_of({var}[{m}])"),
+                                                  rep(f"{var}[{m}].ys", f"{var}[{m}].ys"))]
         raise ValueError(t)
 
     def case(self):
@@ -443,7 +567,7 @@ class Gen:
         body = []
         if self.leaf == "qubit":
             for _ in range(self.r.randrange(0, 4)):
-                s = self.stmt_write(locs, "case")
+                s = self.stmt_write(locs, "case", 99)
                 if s:
                     body.append(dict(s, kind="prep-" + s["kind"]))
         for _ in range(self.r.randrange(2, 6)):
@@ -461,7 +585,8 @@ def generate(rnd):
         for _ in range(cnt):
             g.function(level)
     cases = [g.case() for _ in range(CASES_PER_PROGRAM)]
-    return {"leaf": g.leaf, "N": g.N, "M": g.M, "funcs": g.funcs, "cases": cases, "excluded": g.excluded}
+    return {"leaf": g.leaf, "N": g.N, "M": g.M, "funcs": g.funcs, "cases": cases, "excluded": g.excluded,
+            "excluded_idx": g.excluded_idx}
 
 
 # ------------------------------------------------------------------ rendering
@@ -536,7 +661,24 @@ def _ref_env():
             raise AssertionError("generator bug: cx on one qubit")
         b.bit ^= a.bit
 
-    return {"qubit": _QB, "x": _x, "cx": _cx, "measure": lambda q: bool(q.bit),
+    def _mem_swap(a, b):
+        # the two borrowed places exchange their values: in Python terms both objects stay where
+        # they are and exchange their contents
+        if a is b or type(a) is not type(b):
+            raise AssertionError("generator bug: mem_swap on one object / different types")
+        if isinstance(a, list):
+            if len(a) != len(b):
+                raise AssertionError("generator bug: mem_swap on arrays of different lengths")
+            ca, cb = list(a), list(b)
+            for n in range(len(ca)):
+                list.__setitem__(a, n, cb[n])
+                list.__setitem__(b, n, ca[n])
+        elif isinstance(a, _QB):
+            a.bit, b.bit = b.bit, a.bit
+        else:
+            a.__dict__, b.__dict__ = b.__dict__, a.__dict__
+
+    return {"qubit": _QB, "x": _x, "cx": _cx, "measure": lambda q: bool(q.bit), "mem_swap": _mem_swap,
             "measure_array": lambda qs: pyref.array(*[bool(q.bit) for q in qs])}
 
 
@@ -682,6 +824,16 @@ def classify(prog1):
             labels.add("callee:returns-int")
         if len(f["params"]) > 1:
             labels.add("callee:two-borrowed-params")
+    for s in list(c["body"]) + [s for _, s in stmts_reachable(prog1)]:
+        if s.get("comprehension"):
+            labels.add("comprehension")
+        if s["kind"] == "memswap":
+            labels.add("memswap:" + s["swapped"])
+        for sh in s.get("shapes", []):
+            if "subscript-call" in sh:
+                labels.add("index-call")
+                if sh.split("subscript-call")[1].count("subscript"):
+                    labels.add("index-call-above-subscript")
     if deep:
         labels.add("write-depth>=2")
     for _, t in c["locals"]:
@@ -701,7 +853,19 @@ def features(prog1):
         f.add("multi")
     if any(fn["ret"] for fn in prog1["funcs"]):
         f.add("ret")
+    for s in list(c["body"]) + [s for _, s in stmts_reachable(prog1)]:
+        if s.get("comprehension"):
+            f.add("comprehension")
+        if s["kind"] == "memswap":
+            f.add("memswap")
+        if any("subscript-call" in sh for sh in s.get("shapes", [])):
+            f.add("index-call")
     return f
+
+
+def has_nested_call_idx(prog1):
+    return any(sh.count("subscript-call") > 1 for s in list(prog1["cases"][0]["body"]) + [s for _, s in stmts_reachable(prog1)]
+               for sh in s.get("shapes", []))
 
 
 def has_sibling_call(prog1):
@@ -712,7 +876,7 @@ def has_sibling_call(prog1):
 
 
 def bucket_name(kind, feats):
-    if kind.startswith("crash:") or kind == SIBLING_BUCKET:
+    if kind.startswith("crash:") or kind in (SIBLING_BUCKET, NESTED_IDX_BUCKET):
         return kind  # exception type + innermost compiler frame is the root-cause signature
     return kind + ":" + ":".join(sorted(feats))
 
@@ -847,6 +1011,9 @@ def worker(ctx):
         prog = generate(rnd)
         if prog["excluded"]:
             ctx.exclude("same-element-siblings: two borrowed arguments below one struct/tuple array element", prog["excluded"])
+        if prog["excluded_idx"]:
+            ctx.exclude("nested-call-indices: two subscripts of one argument place with a call as index (C05 nested_subscript_order)",
+                        prog["excluded_idx"])
         idxs = list(range(len(prog["cases"])))
         res = evaluate(prog, idxs)
         for k in idxs:
@@ -869,6 +1036,8 @@ def worker(ctx):
             raw_kind = kind
             if kind == "panic.unexpected" and "already borrowed" in detail and has_sibling_call(p1):
                 kind = SIBLING_BUCKET
+            if kind == "value.mismatch" and has_nested_call_idx(p1):
+                kind = NESTED_IDX_BUCKET
             small = p1
             feats = features(p1)
             sig = next((sg for sg, (k2, f2) in known.items() if k2 == kind and f2 <= feats), None)
@@ -885,7 +1054,7 @@ def worker(ctx):
                     sig = bucket_name(kind, features(small))
                     known[sig] = (kind, features(small))
                 else:
-                    sig = kind if kind.startswith("crash:") or kind == SIBLING_BUCKET else kind + ":unminimised"
+                    sig = kind if kind.startswith("crash:") or kind in (SIBLING_BUCKET, NESTED_IDX_BUCKET) else kind + ":unminimised"
             src = program_src(small, [0])
             ctx.violation(sig, {"src": src, "bucket": sig, "qubits": small["cases"][0]["qubits"], "leaf": small["leaf"]},
                           f"{detail}\n--- program\n{src}")
